@@ -33,9 +33,9 @@ import (
 
 var r *ev.Run
 
-func pow2(n uint) *big.Int { return new(big.Int).Lsh(big.NewInt(1), n) }
-func bi(x uint64) *big.Int { return new(big.Int).SetUint64(x) }
-func sub1(x *big.Int) *big.Int { return new(big.Int).Sub(x, big.NewInt(1)) }
+func pow2(n uint) *big.Int             { return new(big.Int).Lsh(big.NewInt(1), n) }
+func bi(x uint64) *big.Int             { return new(big.Int).SetUint64(x) }
+func sub1(x *big.Int) *big.Int         { return new(big.Int).Sub(x, big.NewInt(1)) }
 func add(x *big.Int, d int64) *big.Int { return new(big.Int).Add(x, big.NewInt(d)) }
 
 // ------------------------------------------------------------------------------------------------
